@@ -176,7 +176,12 @@ fn int_value(t: Tgt, v: u8) -> i64 {
         Tgt::CatCode(_) => (v % 16) as i64,
         Tgt::MathCode | Tgt::MathCodeHi => [0i64, 1, 32767, 28999][(v % 4) as usize],
         Tgt::EndLineChar => [-1i64, 13, 65, 32, 94][(v % 5) as usize],
-        Tgt::GlobalDefs => [0i64, 1, -1][(v % 3) as usize],
+        // sign class from v % 3 (as in older replay files), magnitude from v / 12: TeX only looks at the sign
+        Tgt::GlobalDefs => match v % 3 {
+            0 => 0,
+            1 => [1i64, 2, 7, 2147483647][((v / 12) % 4) as usize],
+            _ => [-1i64, -2, -5, -2147483647][((v / 12) % 4) as usize],
+        },
         _ => v as i64,
     }
 }
